@@ -8,4 +8,6 @@ def run(ctx):
 
 
 def replay(data):
+    if lexeme.is_lexer_record(data):
+        return lexeme.replay_lexer("C04", data)
     return drv.replay(data)
